@@ -118,6 +118,8 @@ class Normaliser:
         if kind == "lremove":
             cls, x = extra
             return "rel " + self.ident(cls, x)
+        if kind == "foreign":
+            return "foreign:%s %s" % (extra, rel.split("/")[0] if rel else "<root>")      # a primitive the model has no operation for
         return "?" + kind
 
 
